@@ -34,6 +34,8 @@ var annotKinds = []string{"hint", "hint", "detail", "detail", "hintf", "detailf"
 
 var c19Words = []string{"h1", "h2", "", "h1", "k", "See: u", model.AssertHint + model.Referral, "d", "h2", "a ‹b› c"}
 
+var c19ManyWords = []string{"m1", "m2", "m3", "m4", "m5", "m6", "m7", "m8", "m9", "m10", "m11", "m12", "m13", "m14", "m15", "m16", model.AssertHint + model.Referral, "See: u"}
+
 type annObs struct {
 	Hints, Details []string
 	Links          [][2]string
@@ -101,6 +103,19 @@ func runC19(c *core.Ctx) {
 			}
 			t = g.Around(k, t)
 		}
+	}
+	if c.Case%8 == 3 && c.Case >= gen.SweepSize() {
+		// MANY annotations: 10..28 layers, mostly hints and details, texts from a pool of 18 with
+		// repeats far apart (de-duplication that keeps its state in a structure which changes
+		// representation once it has grown only shows beyond a handful of distinct texts)
+		g.Str = gen.Pool(c19ManyWords)
+		t = g.Tree(1 + c.R.Intn(2))
+		many := []string{"hint", "hint", "hint", "hintf", "detail", "detailf", "hdwrap", "assertion", "issuelink", "telemetry"}
+		for i, d := 0, 10+c.R.Intn(19); i < d; i++ {
+			t = g.Around(many[c.R.Intn(len(many))], t)
+		}
+		c.Count("many-annotation-chains", 1)
+		g.Str = gen.Pool(c19Words)
 	}
 	if c.Case%10 == 4 {
 		// two code layers of the same family: the outer one wins, also when it carries the
